@@ -8,6 +8,8 @@ CLAIMED = {
  "C06": ("proof", "missing-dependency rejection: Lean theorems over the solve model + correspondence + reachability oracle", "5/C06"),
  "C07": ("proof", "cycle detection and termination: Lean theorems over the verifyAcyclic stack machine (termination, soundness, completeness) + exhaustive small-digraph correspondence", "5/C07"),
  "C08": ("proof", "unused-item reporting: Lean theorems over solve/verifyArgsUsed model + correspondence + contribution oracle", "5/C08"),
+ "C10": ("proof", "order/grouping independence: Lean theorems (bpm_ok_iff, bpm_perm, chained-binding counterexample) + permuted/flattened/split variants through the real planner", "5/C10"),
+ "C14": ("proof", "generated identifiers: Lean theorems (freshness/termination of disambiguate and typeVariableName for every finite scope, distinctness of all binders of an injector, import/value-variable names) + unit-tier name streams + e2e adversarial renaming with by-name comparison of every binder and compile/run", "5/C14"),
  "C11": ("proof", "binding aliasing in map and planner: Lean theorems + unit-tier correspondence + e2e run-time identity traces", "5/C11"),
  "C03": ("proof", "error-branch structure and unwinding: Lean theorems over the emission/execution model for every call list and fault plan + IR of every generated injector + run-time traces under every single-failure plan", "5/C03"),
  "C04": ("proof", "aggregated cleanup: Lean theorems over the emission/execution model + IR closure bodies + run-time traces", "5/C04"),
@@ -15,7 +17,7 @@ CLAIMED = {
 }
 TECH = "Lean 4 theorems about an executable model + differential correspondence with the real code (overlay harness)"
 ALL = ["C%02d" % i for i in range(1, 21)]
-READY = {"C02", "C03", "C04", "C05", "C06", "C08", "C09", "C11"}   # properties whose Props module has proved theorems
+READY = {"C02", "C03", "C04", "C05", "C06", "C07", "C08", "C09", "C10", "C11", "C14"}   # properties whose Props module has proved theorems
 CLAIMED = {k: v for k, v in CLAIMED.items() if k in READY}
 
 def main():
